@@ -40,6 +40,10 @@ def canon(e):
             a, b = sorted((a, b), key=repr)
         return ("bin", op, a, b)
     if k == "field":
+        inner = core(e[1])
+        # writer.location().rva is the writer's position (C16/slot-siblings checks location() itself)
+        if e[2] == "rva" and inner[0] == "call" and inner[1].split("::")[-1] == "location" and "Writer" in inner[1] and len(inner[2]) == 1:
+            return ("field", canon(inner[2][0]), "position")
         return ("field", canon(e[1]), e[2])
     if k in ("param", "const", "str", "unit"):
         return e
@@ -210,12 +214,16 @@ def rule_slot_siblings(ctx):
     b = ctx.body(R, "mem_writer::MemoryArrayWriter::location_of_index")
     if b is not None:
         o = Origin(b)
-        for (bi, si) in Exits(b).ok_defs:
-            e = strip(o._rvalue(b.blocks[bi]["stmts"][si]["r"], (bi, si), 0))
-            if e[0] == "agg":
-                d = dict(e[3])
-                forms["location_of_index"] = (canon(d["rva"]), b.where(bi, si), ("param", 2))
-                ctx.check(canon(d["data_size"]) == ("SIZE",), R, ("location_of_index", "size"), b.where(bi, si), "slot size is size!(T)", "slot size is %s" % show(d["data_size"]))
+        from engine.summ import return_origins
+        from engine.origin import field_of
+        for e in return_origins(ctx.prog, b.short) or []:
+            rva, ds = field_of(e, "rva"), field_of(e, "data_size")
+            if rva is None or ds is None:
+                ctx.unproven(R, ("location_of_index", "shape"), b.where(0), "cannot read rva/data_size of the returned location: %s" % show(e)[:120])
+                continue
+            forms["location_of_index"] = (canon(rva), b.where(0), ("param", 2))
+            ctx.check(canon(ds) == ("SIZE",), R, ("location_of_index", "size"), b.where(0), "slot size is size!(T)",
+                      "the location of ONE element reports the size %s instead of size!(T): it overlaps the neighbouring elements and reaches past the array" % show(ds)[:100])
     for fn in ("alloc_from_array", "alloc_from_iter"):
         b = ctx.body(R, "mem_writer::MemoryArrayWriter::" + fn)
         if b is None:
